@@ -29,7 +29,7 @@ def mk(c, **kw):
     return Q.quantized_linear(c["bits"], c["integer"], c["sym"], keep_negative=bool(c["kn"]), **kw)
   if f == "po2":
     return Q.quantized_po2(c["bits"], use_ste=c["ste"], **kw)
-  return Q.quantized_relu_po2(c["bits"], negative_slope=(0 if c["slope"] is None else 2.0 ** -c["slope"]), use_ste=c["ste"], **kw)
+  return Q.quantized_relu_po2(c["bits"], max_value=c.get("mv"), negative_slope=(0 if c["slope"] is None else 2.0 ** -c["slope"]), use_ste=c["ste"], **kw)
 
 
 def desc(c):
@@ -46,13 +46,15 @@ def configs(tier, rng):
     allc.append(dict(fam="qrelu", bits=bits, integer=integer, slope=s, iqc=True, rub=None, ste=ste))
   for bits, integer, kn, sym in itertools.product([2, 3, 4, 8], [0, 1, 2], [1, 0], [0, 1]):
     allc.append(dict(fam="qlin", bits=bits, integer=integer, kn=kn, sym=sym, alpha=None))
+  n_fixed = len(allc)
   for bits, ste in itertools.product([3, 4, 6], [True, False]):
-    allc.append(dict(fam="po2", bits=bits, ste=ste))
-    for s in (None, 2):
-      allc.append(dict(fam="rpo2", bits=bits, ste=ste, slope=s))
+    allc.append(dict(fam="po2", bits=bits, ste=ste, mv=None))
+    for s, mv in ((None, None), (2, None), (None, 2.0), (2, 2.0)):
+      allc.append(dict(fam="rpo2", bits=bits, ste=ste, slope=s, mv=mv))
   if tier == "thorough":
     return allc
-  idx = rng.choice(len(allc), size=40, replace=False)
+  # stratified: every power-of-two configuration (30) plus 30 of the fixed-point ones
+  idx = list(rng.choice(n_fixed, size=30, replace=False)) + list(range(n_fixed, len(allc)))
   return [allc[i] for i in sorted(idx)]
 
 
@@ -171,6 +173,8 @@ def main():
       else:
         sl = 0.0 if c["slope"] is None else 2.0 ** -c["slope"]
         sur = np.where(x < 0, np.float32(sl) * x, x).astype(np.float32)
+        if c.get("mv") is not None:
+          sur = np.where(x <= np.float32(c["mv"]), sur, np.float32(c["mv"])).astype(np.float32)
       neq = (y0 != sur) & ~((y0 == 0) & (sur == 0)) & (np.abs(x) >= 2.0 ** -126)
       if neq.any():
         i = int(np.where(neq)[0][0])
